@@ -142,6 +142,19 @@ func genStmtWorld(t *rapid.T) StmtWorld {
 	for i := range w.PArr {
 		w.PArr[i] = small("parr")
 	}
+	// edge values of the initial data: containers whose elements are all zero values
+	if pct(t, "zero_arrays", 12) {
+		w.W.Arr = [4]int64{}
+		w.PArr = [len(w.PArr)]int64{}
+	}
+	if pct(t, "zero_slices", 8) {
+		for i := range w.W.Sl {
+			w.W.Sl[i] = 0
+		}
+		for i := range w.Sl {
+			w.Sl[i] = 0
+		}
+	}
 	return w
 }
 
